@@ -131,7 +131,17 @@ def main(argv=None):
             if not vio:
                 print(f"NOT-REPRODUCED property={pid} replay={a.replay}")
             return 1 if vio else 0
-        res = mod.run(ctx)
+        try:
+            res = mod.run(ctx)
+        except Exception:
+            # one retry: a failure of the machinery that does not repeat (a worker lost under extreme load, say) must not
+            # decide anything; the first traceback is kept in .work/ for inspection, a second failure is a harness error
+            os.makedirs(common.WORK, exist_ok=True)
+            with open(os.path.join(common.WORK, "harness-errors.log"), "a") as f:
+                f.write(f"--- {pid} {a.tier}\n{traceback.format_exc()}\n")
+            ctx.cleanup()
+            ctx = Ctx(pid, a.tier, seed)
+            res = mod.run(ctx)
     except Exception:
         traceback.print_exc()
         print(f"HARNESS-ERROR property={pid}", file=sys.stderr)
